@@ -1,7 +1,7 @@
 """Shared pieces for C08 (print∘parse) and C09 (accepted language) — SWHIDs."""
 from __future__ import annotations
 
-from common import cps, exc_kind, hx, uncps, unhx
+from common import time_limit, cps, exc_kind, hx, uncps, unhx
 
 CORE_TYPES = ["snp", "rel", "rev", "dir", "cnt"]
 EXT_TYPES = CORE_TYPES + ["ori", "emd"]
@@ -135,7 +135,8 @@ def parse_impl(cls: str, s: str):
     """('ok', value) | ('err', kind)"""
     C = classes()[cls]
     try:
-        return ("ok", C.from_string(s))
+        with time_limit(10):
+            return ("ok", C.from_string(s))
     except BaseException as e:  # noqa: B902
         return ("err", exc_kind(e))
 
